@@ -4,7 +4,7 @@
 From Coq Require Import List ZArith Bool.
 From Webp Require Import Base.Res Vp8l.Vp8lPixel Vp8l.Vp8lArr Vp8l.Vp8lPrefix Vp8l.Vp8lTransforms Vp8l.Vp8lSpec
   Vp8l.Vp8lEmit Vp8l.Vp8lEmitDecode Vp8l.Vp8lImport Vp8l.Vp8lRoundtrip Vp8l.Vp8lWindow.
-From WebpGen Require Consts.
+From WebpGen Require Consts Vp8lRoles.
 Import ListNotations.
 Open Scope Z_scope.
 
@@ -101,7 +101,7 @@ Print Assumptions C01_cleanup_transparent.
     length alphabet.  (Well-formed plans need exactly this: a used symbol must have
     a code word.) *)
 Theorem C01_window_distance_symbol_in_alphabet : forall dist,
-  1 <= dist <= WebpGen.Consts.lossless_windowSize ->
+  1 <= dist <= WebpGen.Vp8lRoles.lossless_role_lz_window_max ->
   0 <= fst (fst (lz_prefix (WebpGen.Consts.lossless_CodeToPlaneCodesCount + dist))) < WebpGen.Consts.lossless_NumDistanceCodes.
 Proof. exact window_distance_symbol_in_alphabet. Qed.
 Print Assumptions C01_window_distance_symbol_in_alphabet.
@@ -112,7 +112,7 @@ Proof. exact window_distance_code_denotes_distance. Qed.
 Print Assumptions C01_window_distance_code_denotes_distance.
 
 Theorem C01_max_length_symbol_in_alphabet : forall len,
-  1 <= len <= WebpGen.Consts.lossless_maxLength ->
+  1 <= len <= WebpGen.Vp8lRoles.lossless_role_max_match_length ->
   0 <= fst (fst (lz_prefix len)) < WebpGen.Consts.lossless_NumLengthCodes.
 Proof. exact max_length_symbol_in_alphabet. Qed.
 Print Assumptions C01_max_length_symbol_in_alphabet.
